@@ -13,20 +13,29 @@ import (
 
 const v12MaxK = 3
 
+// Join is parametric in the element type; a narrow one (2 tag bits + 6 free
+// payload bits: 64 distinguishable values per input, at most 2 are needed)
+// keeps the bit-vector part of the queries small.
+type v12elem = int8
+
 // v12values: n symbolic values tagged with the input index
-func v12values(tag, n int) [vMaxN]int {
-	var xs [vMaxN]int
+func v12values(tag, n int) [vMaxN]v12elem {
+	var xs [vMaxN]v12elem
 	for j := 0; j < n; j++ {
-		xs[j] = vrt.Int("x")
-		vrt.Assume(xs[j]&3 == tag)
+		xs[j] = v12elem(vrt.Int("x"))<<2 | v12elem(tag)
 	}
 	return xs
 }
 
+// v12at is xs[j] for a symbolic j, loop-free (concrete bound)
+func v12at(xs *[vMaxN]v12elem, j int) v12elem {
+	return vrt.Ite(j == 0, xs[0], vrt.Ite(j == 1, xs[1], vrt.Ite(j == 2, xs[2], xs[3])))
+}
+
 // v12input: one input channel with its producer (style seq=1: pre-filled and closed)
-func v12input(name string, xs *[vMaxN]int, n, capc int, sent *int) chan int {
+func v12input(name string, xs *[vMaxN]v12elem, n, capc int, sent *int) chan v12elem {
 	if vrt.Param("seq", 0) == 1 {
-		in := make(chan int, n)
+		in := make(chan v12elem, n)
 		for j := 0; j < n; j++ {
 			in <- xs[j]
 		}
@@ -34,7 +43,7 @@ func v12input(name string, xs *[vMaxN]int, n, capc int, sent *int) chan int {
 		*sent = n
 		return in
 	}
-	in := make(chan int, capc)
+	in := make(chan v12elem, capc)
 	vrt.Go(name, func() {
 		for j := 0; j < n; j++ {
 			in <- xs[j]
@@ -51,34 +60,44 @@ func v12producerDone(name string) bool {
 
 func VJoin() {
 	k := vrt.Param("k", 2)
-	var ns [v12MaxK]int
-	ns[0], ns[1], ns[2] = vrt.Param("n0", 1), vrt.Param("n1", 1), vrt.Param("n2", 1)
+	// plain locals (captured by value): loop bounds inside goroutines stay concrete
+	n0, n1, n2 := vrt.Param("n0", 1), vrt.Param("n1", 1), vrt.Param("n2", 1)
+	if k < 1 { // inputs that do not exist
+		n0 = 0
+	}
+	if k < 2 {
+		n1 = 0
+	}
+	if k < 3 {
+		n2 = 0
+	}
+	ns := [v12MaxK]int{n0, n1, n2}
 	capc := vrt.Param("cap", 0)
 	cap1 := vrt.Param("cap1", capc) // the second input may have a different capacity
 	total := 0
 	for i := 0; i < k; i++ {
 		total += ns[i]
 	}
-	xs0, xs1, xs2 := v12values(0, ns[0]), v12values(1, ns[1]), v12values(2, ns[2])
+	xs0, xs1, xs2 := v12values(0, n0), v12values(1, n1), v12values(2, n2)
 	var sent [v12MaxK]int
-	var ins [v12MaxK]chan int
-	var out <-chan int
+	var ins [v12MaxK]chan v12elem
+	var out <-chan v12elem
 	ctx := vctx()
 	switch k {
 	case 0:
-		out = Join[int](ctx)
+		out = Join[v12elem](ctx)
 	case 1:
 		ins[0] = v12input("p0", &xs0, ns[0], capc, &sent[0])
-		out = Join(ctx, (<-chan int)(ins[0]))
+		out = Join(ctx, (<-chan v12elem)(ins[0]))
 	case 2:
 		ins[0] = v12input("p0", &xs0, ns[0], capc, &sent[0])
 		ins[1] = v12input("p1", &xs1, ns[1], cap1, &sent[1])
-		out = Join(ctx, (<-chan int)(ins[0]), (<-chan int)(ins[1]))
+		out = Join(ctx, (<-chan v12elem)(ins[0]), (<-chan v12elem)(ins[1]))
 	default:
 		ins[0] = v12input("p0", &xs0, ns[0], capc, &sent[0])
 		ins[1] = v12input("p1", &xs1, ns[1], cap1, &sent[1])
 		ins[2] = v12input("p2", &xs2, ns[2], capc, &sent[2])
-		out = Join(ctx, (<-chan int)(ins[0]), (<-chan int)(ins[1]), (<-chan int)(ins[2]))
+		out = Join(ctx, (<-chan v12elem)(ins[0]), (<-chan v12elem)(ins[1]), (<-chan v12elem)(ins[2]))
 	}
 	vrt.Assert("join.out-capacity", cap(out) == k)
 
@@ -86,58 +105,46 @@ func VJoin() {
 	var cur [v12MaxK]int // per-input cursor of the consumer
 	vrt.Go("consumer", func() {
 		for v := range out {
-			t := v & 3
+			got++ // counted in the same step as the receive
+			t := int(v & 3)
 			is0, is1, is2 := t == 0, t == 1, t == 2
 			// the element its own input has at the cursor of that input
-			want := vrt.Ite(is0, vat(&xs0, ns[0], cur[0]), vrt.Ite(is1, vat(&xs1, ns[1], cur[1]), vat(&xs2, ns[2], cur[2])))
+			want := vrt.Ite(is0, v12at(&xs0, cur[0]), vrt.Ite(is1, v12at(&xs1, cur[1]), v12at(&xs2, cur[2])))
 			c := vrt.Ite(is0, cur[0], vrt.Ite(is1, cur[1], cur[2]))
-			lim := vrt.Ite(is0, ns[0], vrt.Ite(is1, ns[1], ns[2]))
+			lim := vrt.Ite(is0, n0, vrt.Ite(is1, n1, n2))
 			vrt.Assert("join.projection-order", vrt.All(t < k, c < lim, v == want))
 			cur[0] += vrt.B2I(is0)
 			cur[1] += vrt.B2I(is1)
 			cur[2] += vrt.B2I(is2)
-			got++
 		}
 		vrt.Cover("join.consumer-done")
 	})
 
 	// closed(out) only after every input has been closed and drained: nothing is
-	// left in an input buffer, every producer completed all its sends, and
-	// everything sent is either delivered or parked in the output buffer
+	// left in an input buffer and every producer has completed all its sends.
+	// (An element still in the hands of a copier at that moment would make the
+	// copier send on the closed channel: the panic flag; and the Final condition
+	// counts the deliveries. Ghost arithmetic at every step is avoided on purpose:
+	// it makes the queries an order of magnitude slower.)
+	// State predicates are written without loops over captured variables.
+	drained := func(i int) bool {
+		return vrt.Implies(i < k, vrt.All(vrt.Closed(ins[i]), vrt.ChanLen(ins[i]) == 0, sent[i] == ns[i]))
+	}
 	vrt.Invariant("join.close-only-after-drained", func() bool {
-		if !vrt.Closed(out) {
-			return true
-		}
-		for i := 0; i < k; i++ {
-			if !vrt.Closed(ins[i]) || vrt.ChanLen(ins[i]) != 0 || sent[i] != ns[i] {
-				return false
-			}
-		}
-		return got+vrt.ChanLen(out) == total
-	})
-	// nothing is invented or duplicated on the way: delivered + buffered never
-	// exceeds what the producers have completed (+ one in flight per copier)
-	vrt.Invariant("join.no-excess", func() bool {
-		s := 0
-		for i := 0; i < k; i++ {
-			s += sent[i]
-		}
-		return got+vrt.ChanLen(out) <= s+k && cur[0] <= ns[0] && cur[1] <= ns[1] && cur[2] <= ns[2]
+		return vrt.Implies(vrt.Closed(out), vrt.All(drained(0), drained(1), drained(2)))
 	})
 	vrt.Final("join.complete", func() bool {
-		ok := got == total && vrt.Closed(out) && vrt.ChanLen(out) == 0 && vrt.LibExited() && vrt.Exited("consumer")
-		for i := 0; i < k; i++ {
-			ok = ok && cur[i] == ns[i] && vrt.Closed(ins[i]) && vrt.ChanLen(ins[i]) == 0
-		}
-		if k >= 1 {
-			ok = ok && v12producerDone("p0")
-		}
-		if k >= 2 {
-			ok = ok && v12producerDone("p1")
-		}
-		if k >= 3 {
-			ok = ok && v12producerDone("p2")
-		}
-		return ok
+		return vrt.All(got == total, vrt.Closed(out), vrt.ChanLen(out) == 0, vrt.LibExited(), vrt.Exited("consumer"),
+			cur[0] == ns[0], cur[1] == ns[1], cur[2] == ns[2], drained(0), drained(1), drained(2))
 	})
+	// the producers are not left blocked (registered only for the inputs that exist)
+	if k >= 1 {
+		vrt.Final("join.producer0-done", func() bool { return v12producerDone("p0") })
+	}
+	if k >= 2 {
+		vrt.Final("join.producer1-done", func() bool { return v12producerDone("p1") })
+	}
+	if k >= 3 {
+		vrt.Final("join.producer2-done", func() bool { return v12producerDone("p2") })
+	}
 }
